@@ -22,9 +22,10 @@ func checkC06(c *core.Ctx) {
 	}
 	gen := &SGen{Q: &QGen{MaxDepth: 2}}
 	runGrammarCheck(c, schemaBind(), GrammarPlan{
-		DevNames: map[string]bool{"EmptySchemaDocument": true, "BareSchema": true, "NoIfaceExtImplements": true, "EnumValueKeyword": true},
-		Invs:     "Nesting NoVariables TypeOK",
-		MaxTok:   [2]int{5, 6}, Cover: [2]int{11, 14}, NDocs: [2]int{400, 6000},
+		PrinterKind: "schemadoc",
+		DevNames:    map[string]bool{"EmptySchemaDocument": true, "BareSchema": true, "NoIfaceExtImplements": true, "EnumValueKeyword": true},
+		Invs:        "Nesting NoVariables TypeOK",
+		MaxTok:      [2]int{5, 6}, Cover: [2]int{11, 14}, NDocs: [2]int{400, 6000},
 		TraceModule: "SchemaGrammar_Trace", ClassOf: classOfSchemaToken, MutPool: schemaMutPool,
 		Gen: func(i int, rng *rand.Rand) ([]GT, []RTok, bool) {
 			gen.R = rng
